@@ -120,6 +120,24 @@ def buddy_directed():
         {'ps': 12, 'gpus': [4], 'unified': [], 'ctxs': [1], 'drain': True, 'tag': 'directed/buddy_merge',
          'ops': [{'a': A, 'ctx': 0, 'dev': 1, 'n': 1}, {'a': A, 'ctx': 0, 'dev': 1, 'n': 1}, {'a': A, 'ctx': 0, 'dev': 1, 'n': 1},
                  {'a': F, 'ctx': 0, 'b': 1}, {'a': F, 'ctx': 0, 'b': 2}]},
+        # multi-page blocks: a buffer remapped as one 4-page block, a live neighbour behind it, the first buffer freed,
+        # another buffer remapped onto the same GPU, parts remapped again
+        {'ps': 12, 'gpus': [16, 16], 'unified': [], 'ctxs': [1], 'drain': True, 'tag': 'directed/buddy_remap_free_remap',
+         'ops': [{'a': A, 'ctx': 0, 'dev': 1, 'n': 4}, {'a': 'Remap', 'ctx': 0, 'b': 1, 'off': 0, 'n': 4, 'dev': 2},
+                 {'a': A, 'ctx': 0, 'dev': 2, 'n': 4}, {'a': F, 'ctx': 0, 'b': 1},
+                 {'a': A, 'ctx': 0, 'dev': 1, 'n': 4}, {'a': 'Remap', 'ctx': 0, 'b': 3, 'off': 0, 'n': 4, 'dev': 2},
+                 {'a': A, 'ctx': 0, 'dev': 1, 'n': 3}, {'a': 'Remap', 'ctx': 0, 'b': 4, 'off': 0, 'n': 3, 'dev': 2},
+                 {'a': 'Remap', 'ctx': 0, 'b': 3, 'off': 1, 'n': 2, 'dev': 1}, {'a': F, 'ctx': 0, 'b': 4},
+                 {'a': A, 'ctx': 0, 'dev': 1, 'n': 2}, {'a': 'Remap', 'ctx': 0, 'b': 5, 'off': 0, 'n': 2, 'dev': 2},
+                 {'a': F, 'ctx': 0, 'b': 2}, {'a': F, 'ctx': 0, 'b': 3}, {'a': 'Probe', 'ctx': 0, 'dev': 2}]},
+        # two processes and Distribute in equal chunks (one block per GPU), freed while the other process holds a
+        # neighbour, then distributed again
+        {'ps': 12, 'gpus': [16, 16], 'unified': [], 'ctxs': [1, 2], 'drain': True, 'tag': 'directed/buddy_distribute_free_distribute',
+         'ops': [{'a': A, 'ctx': 0, 'dev': 1, 'n': 8}, {'a': 'Dist', 'ctx': 0, 'b': 1, 'gpus': [1, 2]},
+                 {'a': A, 'ctx': 1, 'dev': 2, 'n': 3}, {'a': F, 'ctx': 0, 'b': 1},
+                 {'a': A, 'ctx': 1, 'dev': 1, 'n': 8}, {'a': 'Dist', 'ctx': 1, 'b': 3, 'gpus': [1, 2]},
+                 {'a': A, 'ctx': 0, 'dev': 2, 'n': 4}, {'a': 'Dist', 'ctx': 0, 'b': 4, 'gpus': [2, 1]},
+                 {'a': F, 'ctx': 1, 'b': 2}, {'a': F, 'ctx': 1, 'b': 3}, {'a': 'Probe', 'ctx': 0, 'dev': 1}]},
         {'ps': 12, 'gpus': [8, 2], 'unified': [[1, 2]], 'ctxs': [1], 'drain': True, 'tag': 'directed/buddy_single_pages',
          'ops': [{'a': A, 'ctx': 0, 'dev': 1, 'n': 1}, {'a': A, 'ctx': 0, 'dev': 2, 'n': 1}, {'a': F, 'ctx': 0, 'b': 1},
                  {'a': A, 'ctx': 0, 'dev': 3, 'n': 1}, {'a': 'Probe', 'ctx': 0, 'dev': 2}, {'a': F, 'ctx': 0, 'b': 2},
@@ -331,6 +349,11 @@ def model_check(ctx, thorough):
     r = ctx.tlc(['memalloc'], 'Buddy.tla', 'MC_Buddy_impl.cfg', timeout=300, kind='lead')
     if 'NoDoubleHandOut' not in r.violated:
         raise vlib.Infra('as-implemented buddy model no longer violates NoDoubleHandOut\n' + r.out[-1500:])
+    # blocks of 2^k pages handed out as a unit and released page by page: releasing the block at the address of the
+    # last released page instead of its first page (seeded change C10e) hands pages out twice in the model
+    r = ctx.tlc(['memalloc'], 'Buddy.tla', 'MC_Buddy_freeAtPage.cfg', timeout=300, kind='lead')
+    if not r.violated:
+        raise vlib.Infra('Buddy.tla with FreeAtReleasedPage no longer violates its invariants\n' + r.out[-1500:])
     leads = {}
     invs = ['InsideRecordedDevice', 'TableAgreesWithAllocator', 'ReusableExactly', 'NoCrashWithinCapacity']
     for inv in (invs if thorough else invs[1:2] + invs[3:]):
@@ -441,7 +464,8 @@ def run(ctx, selftest=False):
         'the recording wrapper around vm.NewPageTable only remembers written keys; the table content is read through Find',
         'a process id is learnt from the first page the process maps (Context.pid is unexported)',
         'preparePageForMigration is reached by playing the MMU and the command processors on the driver ports (Driver.Tick called directly)',
-        'the buddy allocator is covered only when the hook fixes/C10-hook-allocator.diff is present (internal package variable)',
+        'the buddy allocator is covered only when the hook amd/driver/verif_c10.go is present (internal package variable)',
+        'buddy runs: Distribute is issued in equal chunks only, so that the chunks (one buddy block each) are visible in the resulting placement',
     ]
 
 
